@@ -255,6 +255,18 @@ type numLit struct {
 
 var numPool = []numLit{{"0", 0}, {"-0", 0}, {"1", 1}, {"-1", -1}, {"1.5", 1.5}, {"-2.25e2", -225}, {"1e3", 1000}, {"2E-2", 0.02}, {"1E+2", 100}, {"0.1", 0.1}, {"9007199254740991", 9007199254740991}, {"1234567890123", 1234567890123}, {"4294967295", 4294967295}, {"1e308", 1e308}, {"0e0", 0}}
 
+// integers no float64 holds exactly: a signing route that decodes into float64 and writes the object
+// out again changes them. The value tree holds what encoding/json yields for the literal.
+func init() {
+	for _, l := range []string{"9007199254740993", "-9007199254740993", "18446744073709551615", "-9223372036854775807", "12345678901234567890123"} {
+		f, err := strconv.ParseFloat(l, 64)
+		if err != nil {
+			panic(err)
+		}
+		numPool = append(numPool, numLit{l, f})
+	}
+}
+
 func (g *jgen) value(depth int) (any, string) {
 	k := rapid.IntRange(0, 9).Draw(g.t, "valueKind")
 	if depth >= 3 && k >= 7 {
